@@ -183,3 +183,19 @@ def MonFmt.Dom (f : MonFmt) (t : DT) : Prop :=
   | .ddMonY => True
 
 end PT
+
+namespace PT
+
+/-- 12-hour clock: `12` for hours 0 and 12 -/
+def h12 (h : Nat) : Nat := if h % 12 = 0 then 12 else h % 12
+def apWord (h : Nat) : List Char := if h < 12 then ['A', 'M'] else ['P', 'M']
+
+/-- `YYYY-MM-DD H:MM AM|PM` -/
+def renderAmpm (t : DT) : List Char :=
+  isoDate t ++ [' '] ++ dec12 (h12 t.hh.toNat) ++ [':'] ++ pad2 t.mm.toNat ++ [' '] ++ apWord t.hh.toNat
+
+/-- `YYYY-MM-DD HHhMMmSSs` -/
+def renderHmsLetters (t : DT) : List Char :=
+  isoDate t ++ [' '] ++ pad2 t.hh.toNat ++ ['h'] ++ pad2 t.mm.toNat ++ ['m'] ++ pad2 t.ss.toNat ++ ['s']
+
+end PT
